@@ -71,9 +71,24 @@ class TwistConstants:
         return K(self._map[symx.fval(r)])
 
 
+# (dims_order of the 3-D (r, theta, z) grid, process counts, this rank's coordinates) of the *real* Layout handed to the
+# constructor: r leading / distributed second / last, orderings that are not their own inverse included
+LAYS = {0: ((0, 2, 1), (1,), (0,)), 1: ((0, 2, 1), (2,), (1,)), 2: ((2, 0, 1), (1, 2), (0, 1)), 3: ((1, 2, 0), (2, 1), (1, 0)),
+        4: ((0, 1, 2), (4,), (3,)), 5: ((2, 0, 1), (2, 2), (1, 0))}
+NR = 4
+
+
+def real_layout(m, lay, eta):
+    order_, nprocs, rank = LAYS[lay]
+    L = m['layout'].Layout('pargrad', list(nprocs), list(order_), eta, list(rank))
+    pos = list(order_).index(0)
+    return L, int(L.starts[pos]), int(L.ends[pos])
+
+
 def work(item):
-    order, nz, nq, tdeg, tpath, rstart, twist_mode, canary = item[:8]
-    dz_item = item[8] if len(item) > 8 else Fr(3, 4)
+    order, nz, nq, tdeg, tpath, lay, twist_mode, canary = item[:8]
+    dz_item = item[8] if len(item) > 8 and item[8] is not None else Fr(3, 4)
+    pre_orders = item[9] if len(item) > 9 else ()
     res = H.worker_result()
     m = dist.mods()
     adv = H.repo_import('pygyro.advection.advection')
@@ -82,7 +97,7 @@ def work(item):
         apply_canary(dict(m, adv=adv), canary)
     numenv.enable(extra_modules=[(adv, None)])
     symx.set_bv(None)
-    nr = 3
+    nr = NR
     rvals = [Fr(1) + Fr(i, 2) for i in range(nr)]
     iota0 = Fr(3, 4) * R0 / rvals[0]
     twists = [TWISTS[(i + 1) % 4] if twist_mode == 'radial' else (Fr(0) if twist_mode == 'zero' else rvals[i] * iota0 / R0) for i in range(nr)]
@@ -90,10 +105,6 @@ def work(item):
     qbreaks = [TWO_PI * Fr(i, nq) for i in range(nq + 1)]
     T = oracle_knots(qbreaks, tdeg, True, tpath)
 
-    class FakeLayout:
-        inv_dims_order = (0, 1, 2)
-        starts = [rstart, 0, 0]
-        ends = [nr, nz, nq]
     st = {}
 
     def body(ctx):
@@ -105,11 +116,15 @@ def work(item):
             # constant rotational transform (what Constants.iota provides): iota = t*R0/r0 for all radii -> b_z irrational in general;
             # keep b_z rational by using the same twist value r*iota/R0 at every radius through the map
             consts = TwistConstants(rvals, twists)
-        pg = adv.ParallelGradient(basis, eta, FakeLayout, consts, order)
+        L, rstart, rend = real_layout(m, lay, eta)
+        # objects of other orders built first in the same process: the result must not depend on that history
+        for o2 in pre_orders:
+            adv.ParallelGradient(basis, eta, L, consts, o2)
+        pg = adv.ParallelGradient(basis, eta, L, consts, order)
         phi = dist.symbolic_field('phi', (nz, nq))
-        st.update(phi=phi, qpts=qpts)
+        st.update(phi=phi, qpts=qpts, rstart=rstart)
         outs = []
-        for il in range(nr - rstart):
+        for il in range(rend - rstart):
             der = np.empty((nz, nq), dtype=object)
             pg.parallel_gradient(phi, il, der)
             outs.append(der)
@@ -126,7 +141,7 @@ def work(item):
             else:
                 res['inconclusive'].append('parallel gradient: %s %r %r' % (kind, val, item[:7]))
             continue
-        phi, qpts = st['phi'], [symx.fval(p) for p in st['qpts']]
+        phi, qpts, rstart = st['phi'], [symx.fval(p) for p in st['qpts']], st['rstart']
         shifts, w = fd_weights(order)
         # moment conditions of the oracle weights = the order claim, algebraically
         for mm in range(order + 1):
@@ -165,7 +180,7 @@ def work(item):
             hits = [wh for wh, b in zip(where, bad) if z3.is_true(mdl.eval(b, model_completion=True))][:3]
             prob = float_replay(m, adv, item, rvals, twists, dz, qbreaks, T)
             rep = dict(kind='pargrad', item=[str(x) for x in item[:7]], where=str(hits), concrete=prob, canary=bool(canary))
-            key = 'pargrad:%s' % ('radius_dependent_iota_local_index' if (twist_mode == 'radial' and rstart > 0) else 'general')
+            key = 'pargrad:%s' % ('radius_dependent_iota_local_index' if (twist_mode == 'radial' and st.get('rstart', 0) > 0) else 'general')
             if prob:
                 res['violations'].append((key, '%s (entries local r/global r/z/theta %s)' % (prob, hits[:2]), rep))
             else:
@@ -182,10 +197,18 @@ def work(item):
     return res
 
 
+_REPLAY_N = [0]
+
+
 def float_replay(m, adv, item, rvals, twists, dz, qbreaks, T):
     """real float code vs. the oracle formula in floats on a random potential"""
-    order, nz, nq, tdeg, tpath, rstart, twist_mode = item[:7]
+    order, nz, nq, tdeg, tpath, lay, twist_mode = item[:7]
+    pre_orders = item[9] if len(item) > 9 else ()
     numenv.disable()
+    if not item[7]:
+        # a fresh instance of the module: nothing cached at class / module level during the symbolic run leaks into the replay
+        _REPLAY_N[0] += 1
+        adv = H.load_copy('pygyro.advection.advection', 'pygyro.advection._replay_%d' % _REPLAY_N[0])
     try:
         kn = m['spl'].make_knots(np.array([float(b) for b in qbreaks]), tdeg, True)
         fb = m['spl'].BSplines(kn, tdeg, True, tpath == 'cu')
@@ -203,18 +226,17 @@ def float_replay(m, adv, item, rvals, twists, dz, qbreaks, T):
                     return np.array([mp[round(float(x), 12)] for x in r])
                 return mp[round(float(r), 12)]
 
-        class FakeLayout:
-            inv_dims_order = (0, 1, 2)
-            starts = [rstart, 0, 0]
-            ends = [nr, nz, nq]
-        pg = adv.ParallelGradient(fb, eta, FakeLayout, FC, order)
+        L, rstart, rend = real_layout(m, lay, eta)
+        for o2 in pre_orders:
+            adv.ParallelGradient(fb, eta, L, FC, o2)
+        pg = adv.ParallelGradient(fb, eta, L, FC, order)
         rng = np.random.RandomState(7)
         phi = rng.rand(nz, nq) * 2 - 1
         shifts, w = fd_weights(order)
         qf = [Fr(q).limit_denominator(10 ** 12) for q in qpts]
         coefs = [SO.interpolant_coeffs(T, tdeg, True, nq, qf, [Fr(x).limit_denominator(10 ** 12) for x in phi[k]]) for k in range(nz)]
         worst = 0.0
-        for il in range(nr - rstart):
+        for il in range(rend - rstart):
             der = np.empty((nz, nq))
             pg.parallel_gradient(phi, il, der)
             ig = il + rstart
@@ -258,15 +280,23 @@ def main():
     orders = [2, 4, 6] if quick else [2, 3, 4, 5, 6]
     for order in orders:
         for twist in ('zero', 'const', 'radial'):
-            for rstart in ((0, 1) if twist == 'radial' else (0,)):
-                items.append((order, order + 2 if quick else order + 3, 4, 3, 'cu', rstart, twist, None))
+            for lay in ((0, 1, 2) if twist == 'radial' else (0,)):
+                items.append((order, order + 2 if quick else order + 3, 4, 3, 'cu', lay, twist, None))
     items.append((4, 7, 4, 2, 'nu', 1, 'const', None))
+    items.append((2, 4, 4, 3, 'cu', 3, 'radial', None))
+    items.append((2, 4, 4, 3, 'cu', 4, 'radial', None))
+    items.append((4, 6, 4, 3, 'cu', 5, 'radial', None))
     # field-line shifts of several poloidal turns (iota*dz*k/R0 > 2 pi): coarse z grid, strong twist
     items.append((6, 8, 4, 3, 'cu', 0, 'radial', None, Fr(12)))
     items.append((4, 7, 5, 3, 'nu', 1, 'radial', None, Fr(-30)))
+    # history independence: objects of neighbouring orders built first in the same process
+    for order, pre in ((5, (4,)), (4, (5,)), (3, (2,)), (2, (3, 6)), (6, (5, 2))):
+        items.append((order, 8, 4, 3, 'cu', 1, 'radial', None, None, pre))
     if not quick:
         items.append((6, 9, 6, 3, 'nu', 0, 'radial', None))
         items.append((5, 8, 5, 1, 'nu', 2, 'const', None))
+        for order in (2, 3, 4, 5, 6):
+            items.append((order, 8, 4, 3, 'cu', 2, 'radial', None, None, tuple(o for o in (2, 3, 4, 5, 6) if o != order)))
     items.append((4, 6, 4, 3, 'cu', 0, 'const', CANARIES[0]))
     items.append((4, 6, 4, 3, 'cu', 0, 'const', CANARIES[1]))
     caught = {}
@@ -285,7 +315,7 @@ def main():
     run.stubs = sorted(set(numenv.STUBS)) + ['numpy.linalg.solve: exact contract A x = b in Q']
     numenv.disable()
     run.bounds = dict(orders=orders, nz='order+2 (thorough order+3, 8, 9)', ntheta='4-6', twist='r*iota/R0 in {0,3/4,5/12,8/15} (constant or radius dependent)',
-                      radial_offsets='local block starting at global radius index 0, 1 (2)')
+                      radial_offsets='real Layout objects: r leading / second / last in the ordering (orderings [0,2,1],[2,0,1],[1,2,0],[0,1,2]), local block starting at global radius index 0, 2, 3', history='objects of other orders constructed first in the same process')
     run.outside = ['convergence with the stated order as an asymptotic statement (the algebraic moment conditions of the weights are checked instead)',
                    'irrational b_z', 'rounding']
     run.assumptions = ['exact reals for doubles', 'solver contracts (C08) and exact numpy.linalg.solve', 'theta grid built from the double 2*pi']
